@@ -30,9 +30,31 @@ func (w *World) Exec(idx int, op Op) {
 		logPos[i] = len(d.Log)
 	}
 	w.Stats.Steps++
+	w.opIOSnap = nil
+	Progress.Add(1)
 	w.exec1(op)
 	if w.Env.BudgetHit && w.Viol == nil {
 		w.fail("io-budget", op.Kind, "operation exceeded its I/O budget of %d StoreFile calls (non-termination)", w.Env.Budget)
+	}
+	if w.RecordIO {
+		// calls of the API call itself (not of checks the harness ran
+		// inside the operation afterwards)
+		m := w.opIOSnap
+		if m == nil {
+			m = w.ioCounts()
+		}
+		for len(w.OpIO) <= idx {
+			w.OpIO = append(w.OpIO, nil)
+		}
+		w.OpIO[idx] = m
+	}
+	if w.faultFired() && w.Viol == nil && w.CheckDecode {
+		// (C07c) the durable states already in the file survive a failed call
+		for di := range w.Disks {
+			if len(w.Files[di].Flushes) > 0 {
+				w.checkDurableIntact(di, op.Kind)
+			}
+		}
 	}
 	w.afterOp(op, logPos)
 	for _, d := range w.Disks {
@@ -272,6 +294,15 @@ func (w *World) opOpen(op Op) {
 		w.Stats.Skipped++
 		return
 	}
+	if op.D < 0 && !op.Mem {
+		// retry on the file of the (failed or closed) handle with this id
+		old := w.store(op.S)
+		if old == nil || old.Disk < 0 {
+			w.Stats.Skipped++
+			return
+		}
+		op.D = old.Disk
+	}
 	h := &StoreH{ID: op.S, Disk: op.D, CB: op.CB, Chunk: op.N, Parent: -1}
 	if op.Mem {
 		h.Disk = -1
@@ -311,6 +342,11 @@ func (w *World) finishOpen(h *StoreH, kind string) {
 	err := w.openStore(h, kind)
 	if w.Viol != nil {
 		return
+	}
+	if wantErr && err == nil && !w.faultFired() {
+		// no flush ever completed on a non-empty file: the "no roots" error
+		// or an empty store are both acceptable (C03)
+		wantErr = false
 	}
 	if w.expectErr(kind, err, wantErr, fmt.Sprintf("NewStore on disk %d", h.Disk)) {
 		h.S = nil
@@ -568,6 +604,7 @@ func (w *World) opRevert(h *StoreH, op Op) {
 			w.checkDecoded(h, kind, w.Disks[h.Disk].Image(), w.Disks[h.Disk].Size())
 		}
 	}
+	w.clearFaults()
 	w.installComparators(h, kind)
 	if w.judges(kind) {
 		w.checkNames(h, kind)
@@ -1330,5 +1367,34 @@ func (w *World) opBlockVisit(h *StoreH, c *gkvlite.Collection, op Op) {
 	}
 	if wrongVal != "" {
 		w.fail("enumeration-value", kind, "%s: %s", what, wrongVal)
+	}
+}
+
+// checkDurableIntact: the independent decoder still reads the model's last
+// flushed state from the file (after a failed call).
+func (w *World) checkDurableIntact(di int, kind string) {
+	f := w.Files[di]
+	top, ok := f.Top()
+	if !ok || f.Opaque {
+		return
+	}
+	img := w.Disks[di].Image()
+	cmpOf := func(name string) int {
+		if c, ok := top.State.Colls[name]; ok {
+			return c.Cmp
+		}
+		return 0
+	}
+	dec := Decode(img, int64(len(img)), cmpOf)
+	if dec == nil {
+		w.fail("durable-state-damaged", kind, "disk %d: after the failed call the decoder finds no root record any more (last flush ended at %d)", di, top.End)
+		return
+	}
+	if dec.Rec.End != top.End {
+		w.fail("durable-state-damaged", kind, "disk %d: after the failed call the last root record ends at %d, the last successful flush ended at %d", di, dec.Rec.End, top.End)
+		return
+	}
+	if d := stateDiff(dec.State(cmpOf), top.State); d != "" {
+		w.fail("durable-state-damaged", kind, "disk %d: after the failed call the file no longer holds the last flushed state: %s", di, d)
 	}
 }
